@@ -76,13 +76,14 @@ TEXT = {
           "(C13_status_s1_iff), S2 exactly when the second is contained in the first and the first not in the second (C13_status_s2_iff), and "
           "NEW / EMPTY only when neither is contained in the other (C13_status_new_or_empty) - the witness that a cleared flag is "
           "justified is a number in a gap of the normal form (helly1d, witness_low, witness_high, intersectLoop_not_all1), and the second "
-          "flag follows from the first by the symmetry of the classification (cwi_mirror, intersectLoop_flags_swap). The saturation of counts "
-          "and picking are tied by correspondence only (exhaustive over all "
+          "flag follows from the first by the symmetry of the classification (cwi_mirror, intersectLoop_flags_swap). A saturated count (LONG_MAX) is "
+          "reported only when the interval / the set contains at least 2^63 - 1 integers (C13_countInt_saturated, "
+          "C13_set_countInt_saturated). Picking is tied by correspondence only (exhaustive over all "
           "128x128 normal-form sets on the atoms of {0,1,2}, 512x512 in the thorough tier, plus random pools with algebraic end points, "
           "half of them handed over with the unrefined isolating interval of the root isolation; pick / contains_int / count_int also on "
           "every interval separately).",
   "design_ref": "5.13",
-  "note": "the saturation of counts and value picking are correspondence only; algebraic end points enter the model as order-isomorphic dyadic surrogates chosen by the harness",
+  "note": "value picking is correspondence only; algebraic end points enter the model as order-isomorphic dyadic surrogates chosen by the harness",
   "technique": "Lean 4 proof over mirror model + exhaustive/differential correspondence harness",
  },
  "C20": {
